@@ -362,12 +362,13 @@ class IrToPythonCompiler:
         for ins in block:
             self.generate_instruction(ins, block)
 
-        if not self._shape_style:
-            self.fill_phis(block)
+    def fill_phis(self, block, target):
+        """Fill the phis of target for the edge block -> target.
 
-    def fill_phis(self, block):
-        # Generate eventual phi fill code:
-        phis = [p for s in block.successors for p in s.phis]
+        This must happen on the edge that is actually taken: the phis of
+        the other successor of a conditional jump may still be live.
+        """
+        phis = target.phis
         if phis:
             phi_names = ", ".join(p.name for p in phis)
             value_names = ", ".join(p.inputs[block].name for p in phis)
@@ -377,9 +378,10 @@ class IrToPythonCompiler:
         self.emit(f"rt.free({self.stack_size})")
         self.stack_size = 0
 
-    def emit_jump(self, target: ir.Block):
+    def emit_jump(self, target: ir.Block, source: ir.Block):
         """Perform a jump in block mode."""
         assert isinstance(target, ir.Block)
+        self.fill_phis(source, target)
         self.emit("_irpy_prev_block = _irpy_current_block")
         self.emit(f'_irpy_current_block = "{target.name}"')
 
@@ -450,10 +452,10 @@ class IrToPythonCompiler:
         else:
             self.emit(f"if {a} {ins.cond} {b}:")
             with self.indented():
-                self.emit_jump(ins.lab_yes)
+                self.emit_jump(ins.lab_yes, ins.block)
             self.emit("else:")
             with self.indented():
-                self.emit_jump(ins.lab_no)
+                self.emit_jump(ins.lab_no, ins.block)
 
     def gen_jump(self, ins):
         if self._shape_style:
@@ -461,7 +463,7 @@ class IrToPythonCompiler:
             # self.fill_phis(block)
             self.emit("pass")
         else:
-            self.emit_jump(ins.target)
+            self.emit_jump(ins.target, ins.block)
 
     def gen_cast(self, ins):
         if ins.ty.is_integer:
